@@ -253,3 +253,49 @@ func expectedReply(req rc.Message, calls []*simfs.Call) (rc.Message, bool) {
 	}
 	return nil, false
 }
+
+// ---- refcodec -> p9 (what a client call must return for a given reply)
+
+func qidFromRC(q rc.QID) p9.QID {
+	return p9.QID{Type: p9.QIDType(q.Type), Version: q.Version, Path: q.Path}
+}
+
+func qidsFromRC(qs []rc.QID) []p9.QID {
+	var out []p9.QID
+	for _, q := range qs {
+		out = append(out, qidFromRC(q))
+	}
+	return out
+}
+
+func attrFromRC(a rc.Attr) p9.Attr {
+	return p9.Attr{Mode: p9.FileMode(a.Mode), UID: p9.UID(a.UID), GID: p9.GID(a.GID), NLink: p9.NLink(a.NLink), RDev: p9.Dev(a.RDev),
+		Size: a.Size, BlockSize: a.BlockSize, Blocks: a.Blocks, ATimeSeconds: a.ATimeSec, ATimeNanoSeconds: a.ATimeNsec,
+		MTimeSeconds: a.MTimeSec, MTimeNanoSeconds: a.MTimeNsec, CTimeSeconds: a.CTimeSec, CTimeNanoSeconds: a.CTimeNsec,
+		BTimeSeconds: a.BTimeSec, BTimeNanoSeconds: a.BTimeNsec, Gen: a.Gen, DataVersion: a.DataVersion}
+}
+
+func maskFromRC(v uint64) p9.AttrMask {
+	return p9.AttrMask{Mode: v&rc.GetattrMode != 0, NLink: v&rc.GetattrNlink != 0, UID: v&rc.GetattrUID != 0, GID: v&rc.GetattrGID != 0,
+		RDev: v&rc.GetattrRdev != 0, ATime: v&rc.GetattrAtime != 0, MTime: v&rc.GetattrMtime != 0, CTime: v&rc.GetattrCtime != 0,
+		INo: v&rc.GetattrIno != 0, Size: v&rc.GetattrSize != 0, Blocks: v&rc.GetattrBlocks != 0, BTime: v&rc.GetattrBtime != 0,
+		Gen: v&rc.GetattrGen != 0, DataVersion: v&rc.GetattrDataVersion != 0}
+}
+
+func setMaskFromRC(v uint32) p9.SetAttrMask {
+	return p9.SetAttrMask{Permissions: v&rc.SetattrMode != 0, UID: v&rc.SetattrUID != 0, GID: v&rc.SetattrGID != 0, Size: v&rc.SetattrSize != 0,
+		ATime: v&rc.SetattrAtime != 0, MTime: v&rc.SetattrMtime != 0, CTime: v&rc.SetattrCtime != 0,
+		ATimeNotSystemTime: v&rc.SetattrAtimeSet != 0, MTimeNotSystemTime: v&rc.SetattrMtimeSet != 0}
+}
+
+func statFromRC(s *rc.Rstatfs) p9.FSStat {
+	return p9.FSStat{Type: s.Type, BlockSize: s.Bsize, Blocks: s.Blocks, BlocksFree: s.Bfree, BlocksAvailable: s.Bavail, Files: s.Files, FilesFree: s.Ffree, FSID: s.Fsid, NameLength: s.Namelen}
+}
+
+func direntsFromRC(ds []rc.Dirent) p9.Dirents {
+	var out p9.Dirents
+	for _, d := range ds {
+		out = append(out, p9.Dirent{QID: qidFromRC(d.QID), Offset: d.Offset, Type: p9.QIDType(d.Type), Name: d.Name})
+	}
+	return out
+}
